@@ -143,7 +143,7 @@ int _vnacal_new_solve_simple(vnacal_new_solve_state_t *vnssp,
 		if (determinant == 0.0 || !isnormal(cabs(determinant))) {
 		    _vnacal_error(vcp, VNAERR_MATH, "vnacal_new_solve: "
 			    "singular linear system");
-		    return -1;
+		    goto out;
 		}
 	    } else {
 		int rank;
@@ -153,7 +153,7 @@ int _vnacal_new_solve_simple(vnacal_new_solve_state_t *vnssp,
 		if (rank < unknowns) {
 		    _vnacal_error(vcp, VNAERR_MATH, "vnacal_new_solve: "
 			    "singular linear system");
-		    return -1;
+		    goto out;
 		}
 	    }
 	    /*
@@ -170,7 +170,7 @@ int _vnacal_new_solve_simple(vnacal_new_solve_state_t *vnssp,
 	     */
 	    if (vs_update_v_matrices("vnacal_new_solve", vnssp, sindex,
 			&x_vector[offset], unknowns) == -1) {
-		return -1;
+		goto out;
 	    }
 	    sum_dx_squared = 0.0;
 	    for (int i = 0; i < x_length; ++i) {
